@@ -113,7 +113,8 @@ Seconds == { [p |-> <<GStep(5, <<1, 0>>), GStep(2, <<0>>)>>, n |-> 2], [p |-> <<
 UOf(cc) == ProdDef(cc.p, cc.n)
 Concat(c2) ==
   LET nn == IF c2.n > n THEN c2.n ELSE n IN
-  /\ Len(prog) + Len(c2.p) <= MaxLen + 1 /\ nn <= MaxQ /\ ~HasPhase(prog) /\ Len(prog) >= 1
+  /\ Len(prog) + Len(c2.p) <= MaxLen + 1 /\ nn <= MaxQ /\ Len(prog) >= 1
+  /\ (HasPhase(prog) => c2.n <= n)          \* a phase operation lists one phase per basis state of ITS register: the width must not grow
   /\ prog' = prog \o c2.p /\ n' = nn
   /\ U' = MMul(Pad(UOf(c2), c2.n, nn), Pad(U, n, nn))
   /\ psi' = MApply(Pad(UOf(c2), c2.n, nn), PadVec(psi, n, nn))
